@@ -22,7 +22,8 @@ rc, dout = sh(f"cd {demo}/demo{i} && go build -o /tmp/seed_demo_bin . && /tmp/se
 demo_fails = rc != 0
 res = {}
 for c in checks:
-    rc, out = sh(f"cd /verif && VERIF_REPO={wt} ./check {c} quick", e=dict(env, VERIF_REPO=wt))
+    vd = os.environ.get("VERIF_DIR", "/verif")
+    rc, out = sh(f"cd {vd} && VERIF_REPO={wt} ./check {c} quick", e=dict(env, VERIF_REPO=wt))
     vio = [l for l in out.splitlines() if l.startswith("VIOLATION")]
     res[c] = {"exit": rc, "violation_lines": vio[:3], "summary": [l for l in out.splitlines() if l.startswith(c + " ")][:1]}
 sh(f"git -C {wt} checkout -- .")
